@@ -4,6 +4,7 @@ import (
 	"fmt"
 	"go/token"
 	"go/types"
+	"strings"
 
 	"golang.org/x/tools/go/ssa"
 
@@ -22,6 +23,7 @@ var (
 func checkC16(c *chk.Ctx) {
 	h := newH(c)
 	c.Decided = []string{
+		"R16i the suffixes of the current last key are only taken from a key that was tested to carry the request's prefix (the reverse lookup returns the greatest lower key of the whole shard, which may belong to another prefix)",
 		"R16a the current highest key of the prefix is looked up in the request's batch (WriteBatch.FindLower) on every path of the key generation; the generation reads no state of the db object",
 		"R16b a first delta of zero is rejected before a key is built",
 		"R16c subscribers are only notified with a key whose generation succeeded (and, open finding F8b, should only be notified once the batch is committed)",
@@ -41,6 +43,7 @@ func checkC16(c *chk.Ctx) {
 	ruleR16f(h)
 	ruleR16g(h)
 	ruleClientRequestsCarryShard(h, "R16h")
+	ruleR16i(h)
 }
 
 func sequenceLookupFns(h *H) []*ssa.Function {
@@ -513,5 +516,119 @@ func ruleR16g(h *H) {
 	}
 	if n == 0 {
 		h.Anchor(rule, "insertion of a waiter into the SequenceWaiterTracker implementation's map")
+	}
+}
+
+// ruleR16i: FindLower(prefix-MAX) returns the greatest key below the bound in the whole
+// batch/store, not only among the keys of the prefix. When the prefix has no key yet, that
+// neighbour belongs to someone else; its "-"-separated parts must not be taken for the
+// current suffixes of this sequence.
+func ruleR16i(h *H) {
+	const rule = "R16i"
+	h.Rule(rule, "K1", "in the sequence lookup, what is split into suffixes derives from the looked-up key only on paths where strings.HasPrefix(key, prefix) / the found result of strings.CutPrefix held", 1)
+	findLower := ir.Callee{Pkg: "server/kv", Recv: "WriteBatch", Name: "FindLower"}
+	n := 0
+	for _, fn := range h.P.Funcs {
+		if ir.RelPkg(ir.PkgPathOf(fn)) != "server/kv" || len(h.P.CallsIn(fn, findLower)) == 0 {
+			continue
+		}
+		lookups := h.P.CallsIn(fn, findLower)
+		fromLookup := func(v ssa.Value) bool {
+			for _, l := range lookups {
+				if ex, ok := v.(*ssa.Extract); ok && ex.Tuple == l.Value() && ex.Index == 0 {
+					return true
+				}
+			}
+			return false
+		}
+		var condIsPrefixTest func(cond ssa.Value, taken bool) bool
+		edgeTested := func(from, to *ssa.BasicBlock) bool {
+			if len(from.Instrs) == 0 || len(from.Succs) != 2 {
+				return false
+			}
+			iff, ok := from.Instrs[len(from.Instrs)-1].(*ssa.If)
+			if !ok {
+				return false
+			}
+			return condIsPrefixTest(iff.Cond, from.Succs[0] == to)
+		}
+		prefixTested := func(b *ssa.BasicBlock) bool {
+			for _, g := range ir.BlockGuards(b) {
+				if condIsPrefixTest(g.Cond, g.Taken) {
+					return true
+				}
+			}
+			return false
+		}
+		condIsPrefixTest = func(cond ssa.Value, taken bool) bool {
+			{
+				g := struct {
+					Cond  ssa.Value
+					Taken bool
+				}{cond, taken}
+				cond, taken := g.Cond, g.Taken
+				for {
+					if u, ok := cond.(*ssa.UnOp); ok && u.Op == token.NOT {
+						cond, taken = u.X, !taken
+						continue
+					}
+					break
+				}
+				if !taken {
+					return false
+				}
+				if c, ok := cond.(*ssa.Call); ok {
+					if f := c.Call.StaticCallee(); f != nil && f.Pkg != nil && f.Pkg.Pkg.Path() == "strings" && f.Name() == "HasPrefix" && ir.DependsOn(c.Call.Args[0], fromLookup) {
+						return true
+					}
+				}
+				if ex, ok := cond.(*ssa.Extract); ok && ex.Index == 1 {
+					if c, isCall := ex.Tuple.(*ssa.Call); isCall {
+						if f := c.Call.StaticCallee(); f != nil && f.Pkg != nil && f.Pkg.Pkg.Path() == "strings" && f.Name() == "CutPrefix" && ir.DependsOn(c.Call.Args[0], fromLookup) {
+							return true
+						}
+					}
+				}
+			}
+			return false
+		}
+		ir.Instrs(fn, func(in ssa.Instruction) {
+			c := ir.CallOf(in)
+			if c == nil {
+				return
+			}
+			f := c.StaticCallee()
+			if f == nil || f.Pkg == nil || f.Pkg.Pkg.Path() != "strings" || !strings.HasPrefix(f.Name(), "Split") || len(c.Args) == 0 {
+				return
+			}
+			if !ir.DependsOn(c.Args[0], fromLookup) {
+				return
+			}
+			n++
+			h.Fn(ir.FuncName(fn))
+			ok := true
+			arg := c.Args[0]
+			if phi, isPhi := arg.(*ssa.Phi); isPhi {
+				for i, e := range phi.Edges {
+					if !ir.DependsOn(e, fromLookup) {
+						continue
+					}
+					pred := phi.Block().Preds[i]
+					tested := prefixTested(pred) || edgeTested(pred, phi.Block())
+					if ei, isI := e.(ssa.Instruction); isI && ei.Block() != nil && prefixTested(ei.Block()) {
+						tested = true
+					}
+					if !tested {
+						ok = false
+					}
+				}
+			} else if !prefixTested(in.Block()) {
+				ok = false
+			}
+			h.Verdict(ok, rule, "suffixes of the looked-up key in "+ir.FuncName(fn), h.pos(in), "only from a key that carries the prefix", "the parts of the looked-up key are used as the sequence's current suffixes without testing that the key carries the request's prefix: when the prefix has no key yet, the greatest lower key of another prefix (or any user key with a '-') seeds the new sequence, so its first key is not zero + deltas")
+		})
+	}
+	if n == 0 {
+		h.Anchor(rule, "the split of the key returned by WriteBatch.FindLower in server/kv")
 	}
 }
